@@ -357,6 +357,157 @@ def _prod_ref_walk(args):
     return bad
 
 
+# ----------------------------------------------------------------------------- sessions: several curves in one process
+
+SESSION_TOY = {"c1": "p43", "c2": "p83"}
+_SG = {}
+
+
+def _dehex(a):
+    return a if isinstance(a, str) else [_dehex(x) for x in a] if a and isinstance(a[0], list) else [int(x, 16) for x in a]
+
+
+def _session_chunk(sessions):
+    """toy sessions in one (forked) process; the generator objects live as long as the process"""
+    if not _SG:
+        _SG.update(drv.session_generators(sorted(SESSION_TOY), {k: CURVES[v] for k, v in SESSION_TOY.items()}))
+    return drv.run_sessions(_SG, [[x["call"] for x in s] for s in sessions])
+
+
+def _session_fail(ctx, sess, i, want, got, where):
+    c, op, v = sess[i]["call"]
+    ctx.fail("C02|session|%s|%s|got=%s" % (op, where, got if isinstance(got, str) and got.startswith("exc:") else "wrong"),
+             "%s(%s, %s) in a process that also holds other curves (%s): the answer must be %s whatever was asked before, got %s; session %s" % (
+                 op, c, v, where, want, got, [x["call"] for x in sess[:i + 1]]),
+             {"session": [x["call"] for x in sess], "index": i, "expected": want, "got": got})
+
+
+def _session_stage(ctx):
+    q = ctx.quick
+    # (a) two toy curves sharing x values: every interleaving of depth 3, expected answers from TLC
+    r = ctx.tlc("ECSession", "MC_ECSession_toy", workers=4, timeout=900)
+    sessions = sorted((x["calls"] for x in r.records if x.get("k") == "session"), key=lambda s: json.dumps(s, sort_keys=True))
+    if len(sessions) < 1000:
+        raise MachineryError("session enumeration printed %d sessions" % len(sessions))
+    random.Random(ctx.seed + 5).shuffle(sessions)
+    chunks = [sessions[i:i + 400] for i in range(0, len(sessions), 400)]
+    n = 0
+    for ch, outs in zip(chunks, pmap(_session_chunk, chunks, chunk=1)):
+        for sess, out in zip(ch, outs):
+            for i, (x, got) in enumerate(zip(sess, out)):
+                n += 1
+                if got != x["res"]:
+                    _session_fail(ctx, sess, i, x["res"], got, "toy p=43/p=83")
+            ctx.case(("session", tuple(tuple(x["call"][:2]) for x in sess)), 0)
+    ctx.log("sessions, toy curves p=43 and p=83 in one process: %d sessions, %d calls" % (len(sessions), n))
+    # (b) the toy curves together with secp256k1 and secp256r1: answers of the production curves are compared with
+    #     what an instance alone in a fresh process gives (the term [iso |-> call] of ECSession.tla)
+    r = ctx.tlc("ECSession", "MC_ECSession_mixed", workers=4, timeout=900)
+    sessions = sorted((x["calls"] for x in r.records if x.get("k") == "session"), key=lambda s: json.dumps(s, sort_keys=True))
+    random.Random(ctx.seed + 6).shuffle(sessions)
+    toyp = {k: list(CURVES[v][:3]) + [list(CURVES[v][3]), CURVES[v][4]] for k, v in SESSION_TOY.items()}
+    names = sorted(SESSION_TOY) + ["secp256k1", "secp256r1"]
+    for native, sel in (("", sessions if not q else sessions[::2]), ("python", sessions[::40] if q else sessions[::8])):
+        distinct = sorted({tuple(x["call"]) for s in sel for x in s if x["call"][0] not in SESSION_TOY})
+        jobs = [(nm, native, None, {"what": "session", "names": [nm], "toy": {}, "sessions": [[list(c)] for c in distinct if c[0] == nm]})
+                for nm in ("secp256k1", "secp256r1")]
+        per = max(1, (len(sel) + 7) // 8)
+        parts = [sel[i:i + per] for i in range(0, len(sel), per)]
+        jobs += [("all", native, part, {"what": "session", "names": names, "toy": toyp, "sessions": [[x["call"] for x in s] for s in part]})
+                 for part in parts]
+        iso = {}
+        results = _run_session_jobs(jobs)
+        for (nm, _, part, job), res in results:
+            if part is None:
+                for sess, out in zip(job["sessions"], res["out"]):
+                    iso[tuple(sess[0])] = _dehex(out[0])
+        for (nm, _, part, job), res in results:
+            if part is None:
+                continue
+            if native == "python" and set(res["backends"].values()) != {"python"}:
+                raise MachineryError("PYCOIN_NATIVE=python did not select the pure-Python backends")
+            where = "with secp256k1/secp256r1 (%s)" % (native or res["backends"]["secp256k1"])
+            for sess, out in zip(part, res["out"]):
+                for i, (x, got) in enumerate(zip(sess, out)):
+                    n += 1
+                    got = _dehex(got)
+                    want = x["res"] if not isinstance(x["res"], dict) else iso[tuple(x["res"]["iso"])]
+                    if got != want:
+                        _session_fail(ctx, sess, i, want, got, where)
+        ctx.log("sessions, toy + production curves in one process (%s): %d sessions" % (native or "default backend", len(sel)))
+    ctx.case(None, n)
+    ctx.replayed += n
+    ctx.action("replay.sessions", n)
+    # (c) traces: long random sessions over two curves on the same field, validated by TLC
+    cnt, ln = (40, 40) if q else (400, 60)
+    traces = pmap(_session_trace_chunk, [(ctx.seed * 31 + i, cnt // 4, ln) for i in range(4)], chunk=1)
+    traces = [t for ch in traces for t in ch]
+    rej, matched = _validate_sessions(ctx, traces)
+    ctx.traces += len(traces) - len(rej)
+    ctx.case(None, sum(len(t) for t in traces))
+    ctx.action("trace.session_events", sum(len(t) for t in traces))
+    for i in rej:
+        m = matched.get(i, 0)
+        e = traces[i][min(m, len(traces[i]) - 1)]
+        ctx.fail("C02|session|%s|trace p=251|got=%s" % (e["op"], "no-answer" if e["note"] else "wrong"),
+                 "recorded session over two curves mod 251 is not a behaviour of ECSession.tla: event %d %s" % (m, e),
+                 {"trace": traces[i], "event_index": m})
+    good = [t for i, t in enumerate(traces) if i not in rej and any(e["op"] == "pfx" and e["res"] for e in t)][:1]
+    if good:
+        bad = copy.deepcopy(good[0])
+        e = next(e for e in bad if e["op"] == "pfx" and e["res"])
+        e["res"] = [e["res"][1], e["res"][0]]           # parity order swapped
+        rej2, _ = _validate_sessions(ctx, [good[0], bad], log=False)
+        ctx.selftest("session_trace_rejects_swapped_points", rej2 == [1])
+    ctx.log("session traces p=251 (n=241, n=271): %d recorded, %d rejected by TLC" % (len(traces), len(rej)))
+
+
+def _run_session_jobs(jobs):
+    running, results = [], []
+    for j in jobs:
+        running.append((j, drv.spawn(j[3], j[1], REPO)))
+        if len(running) >= NPROC:
+            jj, proc = running.pop(0)
+            results.append((jj, drv.finish(proc, jj[3])))
+    for jj, proc in running:
+        results.append((jj, drv.finish(proc, jj[3])))
+    return results
+
+
+def _session_trace_chunk(args):
+    seed, count, ln = args
+    rnd = random.Random(seed)
+    gens = drv.session_generators(["c1", "c2"], {"c1": CURVES["p251a"], "c2": CURVES["p251b"]})
+    out = []
+    for t in range(count):
+        ev = []
+        hot = [rnd.randrange(251) for _ in range(6)]        # a few x values asked of both curves again and again
+        for e in range(ln):
+            c = rnd.choice(("c1", "c2"))
+            op = rnd.choice(("pfx", "pfx", "pfx", "mul", "add"))
+            v = (rnd.choice(hot) if rnd.random() < 0.7 else rnd.randrange(251)) if op == "pfx" else rnd.choice((rnd.randrange(-600, 600), rnd.randrange(1 << 30)))
+            got = drv.session_call(gens[c], op, v)
+            # a call that raised or returned something that is no answer: a value of the right shape that no curve gives
+            none = [[-1, -1], [-1, -1]] if op == "pfx" else [-1, -1]
+            ev.append({"c": c, "op": op, "v": v, "res": got if isinstance(got, list) else none, "note": got if isinstance(got, str) else ""})
+        out.append(ev)
+    return out
+
+
+def _validate_sessions(ctx, traces, log=True):
+    fd, path = tempfile.mkstemp(prefix="vf-c02-sess-", suffix=".json")
+    with os.fdopen(fd, "w") as f:
+        json.dump([[{k: e[k] for k in ("c", "op", "v", "res")} for e in t] for t in traces], f)
+    try:
+        r = ctx.tlc("Trace_ECSession", "Trace_ECSession_p251", workers=1, env={"TRACE_FILE": path}, count=False, timeout=1500)
+    finally:
+        os.unlink(path)
+    rej = [x for x in r.records if x.get("k") == "rejected"]
+    if len(rej) != 1 or rej[0]["n"] != len(traces):
+        raise MachineryError("session trace run gave no verdict: %s" % r.raw_tail[-5:])
+    return sorted(i - 1 for i in rej[0]["ids"]), {i: m for i, m in enumerate(rej[0]["matched"]) if m >= 0}
+
+
 # ----------------------------------------------------------------------------- traces
 
 def _record_traces(ck, seed, count, nev, nregs=5):
@@ -586,6 +737,10 @@ def run(ctx):
         if len(cbehs) < 100:
             raise MachineryError("scalar-class enumeration printed %d behaviours" % len(cbehs))
         _production(ctx, cbehs, 2, WIDE_BACKENDS + (BACKENDS[1:2] if q else BACKENDS), B1_WIDE, B2_WIDE, "scalar classes across 2^256", per=9)
+
+    # ---- 4d. several curves in one process (ECSession.tla)
+    if _stage(ctx, "session"):
+        _session_stage(ctx)
 
     # ---- 5. traces
     if _stage(ctx, "traces"):
